@@ -685,7 +685,9 @@ class SurfaceContainer(AbstractContainer):
         if all((self._cache['vertices'], self._cache['faces'])) and not force_tsl:
             return
 
-        # Tessellate the surfaces in the container
+        # Tessellate the surfaces in the container; the offsets below are added to the ids of the elements' own
+        # vertices and faces, so every element must be numbered afresh whenever the aggregate is rebuilt
+        kwargs['force'] = True
         num_procs = kwargs.pop('num_procs', 1)
         new_elems = []
         if num_procs > 1:
